@@ -415,6 +415,10 @@ func (tps *TPS) waitForDeCommitmentDistribution(ctx context.Context) {
 }
 
 func (tps *TPS) combineShares() PK {
+	// OnMsg may run concurrently (a peer may reveal its public key early) and writes the same maps
+	tps.lock.Lock()
+	defer tps.lock.Unlock()
+
 	for _, party := range tps.parties {
 		if party == tps.Party {
 			continue
